@@ -38,7 +38,7 @@ def version_table(produce_max, fetch_max, nkeys=21):
 
 class LogEntry(object):
     """A stored unit: one plain message or one compressed wrapper with its inner messages."""
-    __slots__ = ("msgs", "magic", "wrapper", "raw", "corrupt", "raw_clean", "heal", "rel0", "attrs")
+    __slots__ = ("msgs", "magic", "wrapper", "raw", "corrupt", "raw_clean", "heal", "rel0", "attrs", "members")
 
     def __init__(self, msgs, magic, wrapper, raw=None):
         self.msgs = msgs
@@ -47,6 +47,7 @@ class LogEntry(object):
         self.raw = raw  # pre-encoded native bytes (set when corrupted or nested by the generator)
         self.corrupt = False
         self.rel0 = 0
+        self.members = 1  # gzip members the wrapper's compressed value consists of
         self.attrs = 0  # attribute bits beyond the codec (format 1: bit 3 = log-append time) carried by the (inner) messages
 
     @property
@@ -63,7 +64,7 @@ class LogEntry(object):
         mg = self.magic if magic is None else magic
         if self.wrapper:
             ms = [Msg(m.offset, m.key, m.value, mg, m.timestamp if mg == 1 else None) for m in self.msgs]
-            return kwire.encode_wrapper(ms, mg, rel0=self.rel0 if mg == 1 else 0, inner_attrs=self.attrs if mg == 1 else 0)
+            return kwire.encode_wrapper(ms, mg, rel0=self.rel0 if mg == 1 else 0, inner_attrs=self.attrs if mg == 1 else 0, members=self.members)
         m = self.msgs[0]
         return kwire.encode_entry(m.offset, kwire.encode_message(mg, self.attrs if mg == 1 else 0, m.key, m.value, m.timestamp if mg == 1 else None))
 
